@@ -294,6 +294,6 @@ def chunk_get_rule(R, pfx="C15"):
             ta = Taint(b, through="all")
             des = call_results(["ant_protocol::storage::header::try_deserialize_record"])(b)
             return ta.closure(des)
-        R.gate(pfx + ".chunk", cg, RetSink("Ok"),
+        R.gate(pfx + ".chunk", cg, RetSink("Ok", computed=True),
                [[CmpGuard(src_addr, src_chunk, "Eq", "fetched chunk's address == requested address", close=False)]],
                descr="chunk_get returns Ok(chunk) only when the chunk's own address equals the requested one")
